@@ -186,6 +186,13 @@ func TestC03(t *testing.T) {
 		}
 		synctest.Test(t, func(t *testing.T) { c03Run(t, run, sc) })
 	}
+	for k := 0; k < run.N(8, 200); k++ {
+		desc := map[string]any{"idx": k, "kind": "overlapping-deploys"}
+		if !run.Mine(n+5000+k, desc) {
+			continue
+		}
+		synctest.Test(t, func(t *testing.T) { overlapDeploys(t, run, k, run.Rand(n+5000+k)) })
+	}
 	for k := 0; k < run.N(24, 800); k++ {
 		desc := map[string]any{"idx": k, "kind": "two-commands-around-one-request"}
 		if !run.Mine(n+k, desc) {
@@ -193,6 +200,95 @@ func TestC03(t *testing.T) {
 		}
 		synctest.Test(t, func(t *testing.T) { c03Double(t, run, k, run.Rand(n+k)) })
 	}
+}
+
+// overlapDeploys (used by C02, C03 and C17): two deploys of one service overlap. B is issued first and
+// waits 1.5s for its target; A is issued, becomes healthy and installs at once; a slow request (and
+// sometimes a WebSocket) is then in flight on A's target; B's target turns healthy and B replaces
+// A's target. B has to drain what it replaced: when B returns nothing is being served by A's target
+// (C03), so A's target can be taken away at that moment - which the scenario does - without any
+// client seeing an error (C02); and after a final remove nothing is probed any more (C17).
+func overlapDeploys(t *testing.T, run *Run, idx int, rng *rand.Rand) {
+	w := NewWorld(t, WorldOpt{})
+	defer w.Close()
+	run.Eval()
+	const svc = "svc"
+	fail := func(sig, format string, a ...any) {
+		run.Violate(sig, fmt.Sprintf(format, a...), map[string]any{"idx": idx, "kind": "overlapping-deploys"}, func() []string { return w.Trace(200) })
+	}
+	w.AddTarget("v0:80", nil)
+	w.AddTarget("va:80", nil)
+	w.AddTarget("vb:80", func(n int, at time.Duration) ProbeAct {
+		if n == 0 {
+			return ProbeAct{Status: 200, Delay: 1500 * time.Millisecond}
+		}
+		return ProbeAct{Status: 200}
+	})
+	if c := w.Deploy(svc, []string{"v0:80"}, DefSO, DefTO, 5*time.Second, 5*time.Second); c.Err != "" {
+		run.Inconclusive("setup: %s", c.Err)
+		return
+	}
+	T := 2 * time.Second
+	lat := time.Duration(1500+rng.IntN(1500)) * time.Millisecond
+	ws := rng.IntN(2) == 0
+	var recA, recB, recRm *CmdRec
+	w.At(T, func() {
+		recB = w.Deploy(svc, []string{"vb:80"}, DefSO, DefTO, 5*time.Second, 5*time.Second)
+		if recB.Err == "" {
+			w.Target("va:80").Kill() // the replaced container is removed the moment deploy returns
+			w.Target("v0:80").Kill()
+		}
+	})
+	w.At(T+300*time.Millisecond, func() { recA = w.Deploy(svc, []string{"va:80"}, DefSO, DefTO, 5*time.Second, 5*time.Second) })
+	w.GoReq(T+600*time.Millisecond+OffArrival, Req{ID: "slow", Host: "ov.example", Path: "/slow", Lat: lat + OffTarget})
+	if ws {
+		w.GoReq(T+700*time.Millisecond+OffArrival, Req{ID: "ws", Host: "ov.example", Path: "/ws", Mode: "upgrade", AbortAfter: 20 * time.Second})
+	}
+	for k := 0; k < 8; k++ {
+		w.GoReq(T+time.Duration(k)*500*time.Millisecond+OffArrival, Req{ID: fmt.Sprintf("q%d", k), Host: "ov.example", Path: "/q"})
+	}
+	w.At(T+12*time.Second, func() { recRm = w.Remove(svc) })
+	w.Wait()
+	time.Sleep(8 * time.Second)
+	if recA == nil || recB == nil || recRm == nil || recA.Err != "" || recB.Err != "" || recA.Panic != "" || recB.Panic != "" {
+		run.Count("overlapping_deploys_did_not_both_succeed", 1)
+		return
+	}
+	if !(recA.Ret < recB.Ret && recB.Issue < recA.Issue) {
+		run.Count("overlapping_deploys_not_in_the_intended_order", 1)
+		return
+	}
+	// C03: quiescent when B returns
+	for _, q := range w.Target("va:80").ReqLog() {
+		if q.Recv <= recB.Ret && (q.Outcome == "open" || q.End > recB.Ret+Eps) {
+			fail("open-at-return:deploy:overlapping-deploys", "deploy B (issued %v) replaced the target deploy A had installed at %v; B returned at %v while request %s was still being served by that target (received %v, ended %v %s)", recB.Issue, recA.Ret, recB.Ret, q.ID, q.Recv, q.End, q.Outcome)
+			return
+		}
+		if q.Recv > recB.Ret {
+			fail("sent-after-return:deploy:overlapping-deploys", "request %s reached the target replaced by deploy B at %v, after B had returned at %v", q.ID, q.Recv, recB.Ret)
+			return
+		}
+	}
+	// C02: nobody saw an error
+	for _, r := range w.RespLog() {
+		if r.ID == "ws" {
+			continue
+		}
+		if r.Status != 200 || r.Target == "" {
+			fail("error-status:overlapping-deploys", "request %s (sent %v) got status=%d target=%q err=%q while two deploys overlapped (A returned %v, B returned %v, replaced targets removed then)", r.ID, r.Sent, r.Status, r.Target, r.Err, recA.Ret, recB.Ret)
+			return
+		}
+	}
+	// C17: nothing is probed after the remove
+	for _, name := range []string{"v0:80", "va:80", "vb:80"} {
+		for _, p := range w.Target(name).ProbeLog() {
+			if p.Start > recRm.Ret+Eps {
+				fail("probe-after-everything-removed:overlapping-deploys", "the service was removed at %v, yet %s was probed at %v", recRm.Ret, name, p.Start)
+				return
+			}
+		}
+	}
+	run.Class(fmt.Sprintf("overlapping-deploys|ws=%v", ws))
 }
 
 // c03Double: one request straddles two commands. It passes the gate of the running service and
